@@ -318,7 +318,7 @@ let cmd_engine (args : sx list) : sx =
       let pres = sx_list sx_bool present in
       let ids = List.filteri (fun i _ -> List.nth pres i) (List.mapi (fun i _ -> n_of_int i) cs) in
       let want c = String.contains which c in
-      let wf = if want 'w' then [A "wf"; bool_sx (wf_check string_dom a (compute_rank a) ids)] else [] in
+      let wf = if want 'w' then [A "wf"; bool_sx (wf_check string_dom a (compute_rank a) ids && arity_ok string_dom a)] else [] in
       let snd_ = if want 's' then [A "sound"; bool_sx (lab_ok string_dom s_goodb atoms_self a (compute_lab string_dom atoms_self a) cs)] else [] in
       let cpl = if want 'c' then [A "complete"; bool_sx (cert_complete (char_entails N.eqb) (char_refutes N.eqb) a cs pres)] else [] in
       let tgt = if want 't' then [A "tight"; bool_sx (s_keys_tight a cs)] else [] in
@@ -333,7 +333,7 @@ let cmd_engine (args : sx list) : sx =
       let pres = sx_list sx_bool present in
       let ids = List.filteri (fun i _ -> List.nth pres i) (List.mapi (fun i _ -> n_of_int i) cs) in
       let want c = String.contains which c in
-      let wf = if want 'w' then [A "wf"; bool_sx (wf_check matrix_dom a (compute_rank a) ids)] else [] in
+      let wf = if want 'w' then [A "wf"; bool_sx (wf_check matrix_dom a (compute_rank a) ids && arity_ok matrix_dom a)] else [] in
       let snd_ = if want 's' then [A "sound"; bool_sx (lab_ok matrix_dom m_goodb atoms_self a (compute_lab matrix_dom atoms_self a) cs)] else [] in
       let cpl = if want 'c' then [A "complete"; bool_sx (cert_complete (char_entails mkey_eqb) (char_refutes mkey_eqb) a cs pres)] else [] in
       L (wf @ snd_ @ cpl)
@@ -458,7 +458,7 @@ let cmd_pg (x : sx) : sx =
       let pres = sx_list sx_bool present in
       let ids = List.filteri (fun i _ -> List.nth pres i) (List.mapi (fun i _ -> n_of_int i) pres) in
       let cs = sx_list (fun cs -> sx_list sx_pgcons cs) css in
-      L [A "wf"; bool_sx (wf_check pg_dom a (compute_rank a) ids);
+      L [A "wf"; bool_sx (wf_check pg_dom a (compute_rank a) ids && arity_ok pg_dom a);
          A "sound"; bool_sx (lab_ok pg_dom (fun _ -> true) pg_atoms a (compute_lab pg_dom pg_atoms a) cs)]
   | _ -> failwith "pg args"
 
